@@ -233,7 +233,18 @@ func c16Checked(rc *RuleCtx) {
 func errorIsHandled(f *ssa.Function, ev ssa.Value) (string, bool) {
 	ei := errResultIndex(f.Signature)
 	// carriers: ev itself plus loads of cells whose single reaching store is ev
-	isEv := func(v ssa.Value) bool { return resolve1(v) == ev }
+	isEv := func(v ssa.Value) bool {
+		if resolve1(v) == ev {
+			return true
+		}
+		// ev among the values v can have (a result variable assigned on several branches, unobservable edges dropped)
+		for _, o := range originsOf(v) {
+			if o == ev {
+				return true
+			}
+		}
+		return false
+	}
 	// (1) returned directly
 	for _, r := range returnsOf(f) {
 		if ei >= 0 && len(r.Results) > ei && isEv(r.Results[ei]) {
